@@ -169,7 +169,9 @@ def correctOctave (fixed : List (String × Bool)) : Nat → Chord → Res Chord
         correctOctave fixed fuel c'
       else pure c
 
-/-- `find_optimal_octaves` -/
+/-- `find_optimal_octaves`: the corrected chords.  The code accumulates them from `new_score = None`
+(`new_score += chord`), so its result is `None` — not an empty score — exactly when this list is
+empty (see `VLCfg.call`). -/
 def VLCfg.findOptimalOctaves (cfg : VLCfg) (fuel : Nat) (s : Score) : Res Score :=
   s.mapM (correctOctave (cfg.fixed.zip cfg.change) fuel)
 
@@ -277,7 +279,9 @@ def candMat : List (List (List Int)) → Mat → Res Mat
   | [], [] => pure []
   | c :: cs, v :: vs => do let p ← candRow c v; let t ← candMat cs vs; pure (p :: t)
   | _, [] => pure []
-  | [], _ :: _ => .error .index
+  -- `self.candidates[idxi]` is evaluated per entry of the row: beyond the last row of candidates a row without
+  -- entries asks for nothing (no error), any other row raises `IndexError` at its first entry
+  | [], v :: vs => do let p ← candRow [] v; let t ← candMat [] vs; pure (p :: t)
 
 /-- `get_pitch_solution(dvals)` -/
 def VLState.pitchSolution (st : VLState) (dvals : Mat) : Res Mat := do
@@ -405,6 +409,7 @@ def VLCfg.optimize (cfg : VLCfg) (meth : Method) (orders : List (List String)) (
 /-- `VoiceLeading.__call__(score)` -/
 def VLCfg.call (cfg : VLCfg) (meth : Method) (orders : List (List String)) (fuel : Nat) (s : Score) : Res Score := do
   let s1 ← cfg.findOptimalOctaves fuel s
-  cfg.optimize meth orders s1
+  -- a score without chords: `find_optimal_octaves` returns `None` and `optimize(None)` raises AttributeError
+  if s1.isEmpty then .error .attr else cfg.optimize meth orders s1
 
 end MV
